@@ -359,7 +359,36 @@ func runSEEKLEAF(c *Ctx) {
 				}
 				return false
 			}, func(ssa.Instruction) bool { return false })
-			if ok3 {
+			// the skip must go on with the next level up, not end the scan: the block entered when the two nodes are the
+			// same lies in the loop
+			skipEnds := false
+			for _, sb := range b.Parent().Blocks {
+				if len(sb.Instrs) == 0 || !inCycle(sb) {
+					continue
+				}
+				iff, isIf := sb.Instrs[len(sb.Instrs)-1].(*ssa.If)
+				if !isIf {
+					continue
+				}
+				bin, isBin := iff.Cond.(*ssa.BinOp)
+				if !isBin || !isNodePtr(bin.X.Type()) || !isNodePtr(bin.Y.Type()) ||
+					!strings.Contains(ir.Sym(bin.X), "."+nodeFieldName) || !strings.Contains(ir.Sym(bin.Y), "."+nodeFieldName) {
+					continue
+				}
+				same := sb.Succs[0]
+				if bin.Op == token.NEQ {
+					same = sb.Succs[1]
+				} else if bin.Op != token.EQL {
+					continue
+				}
+				if !inCycle(same) {
+					skipEnds = true
+				}
+			}
+			if ok3 && skipEnds {
+				c.Violation(seek, P.InstrPos(call), "a node recorded twice ends the range scan",
+					"where the next deeper entry names the same node the loop is left instead of continued: every level above the node at which the descent ended is dropped (SeekIter(5) yields only the tail of one node)")
+			} else if ok3 {
 				c.OK(P.InstrPos(call), "per-level iteration of the range scan", "only for an entry whose node differs from the next deeper entry's (or the deepest entry)", false)
 			} else {
 				c.Violation(seek, P.InstrPos(call), "a node recorded twice on the search path is iterated twice",
@@ -430,4 +459,53 @@ func stopPredicate(c *Ctx, hc *ssa.Call, probe *ssa.Parameter, baseFact func(ir.
 func isPathSlice(P *ir.Program, t types.Type) bool {
 	sl, ok := t.Underlying().(*types.Slice)
 	return ok && ir.IsNamed(sl.Elem(), pathNames(P).typ)
+}
+
+// PATHRECORD: the descent hands its callers two things: the node and position where it stopped, and the path that
+// leads there. SeekIter walks the path, Insert and Delete rewrite it. A return that skips the bookkeeping (an early
+// exit added as an optimisation) leaves the last node out: the range scan then starts one level too high and skips
+// the entries of the node where the probe's successor is.
+
+func init() {
+	Register(&Rule{ID: "PATHRECORD", Props: []string{"C10", "C01"}, Min: 1,
+		Doc: "in the descent (findNode, resolved by role) every success return that hands back a node of this invocation (not the result of the recursive call) is reached only after an entry was appended to the options' path in this invocation (must-dataflow over the stores to findOptions.path).",
+		Run: runPATHRECORD})
+}
+
+func runPATHRECORD(c *Ctx) {
+	P := c.P
+	fn := c.MustFunc("(*mastNode).findNode")
+	if fn == nil {
+		return
+	}
+	ei := ir.ErrorResultIndex(fn.Signature)
+	n := 0
+	for _, r := range ir.Returns(fn) {
+		if ei < 0 || !ir.IsNilConst(ir.ForwardLoad(r.Results[ei])) {
+			continue
+		}
+		if ex, ok := r.Results[0].(*ssa.Extract); ok {
+			if call, ok := ex.Tuple.(*ssa.Call); ok && ir.Callee(call.Call) == fn {
+				continue // the recursive call's own answer
+			}
+		}
+		n++
+		ok := ir.FlowFactGen(r, func(ir.Fact) bool { return false }, func(i ssa.Instruction) bool {
+			st, isSt := i.(*ssa.Store)
+			if !isSt {
+				return false
+			}
+			fa, isFA := st.Addr.(*ssa.FieldAddr)
+			return isFA && ir.IsPtrToNamed(fa.X.Type(), "findOptions") && isPathSlice(P, st.Val.Type())
+		}, func(ssa.Instruction) bool { return false })
+		if ok {
+			c.OK(P.InstrPos(r), "success return of the descent", "after the node was recorded on the search path", false)
+		} else {
+			c.Violation(fn, P.InstrPos(r), "the descent returns a node it did not record on the path",
+				"on some path findNode hands back a node and a position without having appended them to options.path: the callers that walk the path (SeekIter's range scan, the rewrite of the path in Insert and Delete) miss the node where the search ended")
+		}
+	}
+	if n == 0 {
+		c.AnchorMissing("a success return of findNode that is not the recursive call's")
+	}
 }
